@@ -210,7 +210,52 @@ def increaseReputation (e : Env) (s : State) (a : Addr) (v : Int) : State :=
   | none => s
   | some n => s.setNode e { n with reputation := f32round (n.reputation + f32round v) }
 
-def saoCompleteBody (e : Env) (s : State) (msgProvider : Addr) (orderId size : Nat) (cidOk : Bool) (cid : StrId) : TxM State := do
+/-- completion of a shard that is migrating in: the source shard is released and removed, its worker income moves to
+    the new provider, and every order that listed the source shard now lists the new one (the `fix:` of F02) -/
+def completeMigration (e : Env) (s : State) (order : Order) (shard : Shard) : TxM (State × Order × Shard × Order) := do
+  if shard.«from» = 0 then throw "empty shard from"
+  let oldShard? := getOrderShardBySP s order shard.«from»
+  let s ← softTx (shardRelease e s shard.«from» oldShard?)
+  let some oldShard := oldShard? | throw "nil pointer dereference"
+  let inProgress := if oldShard.orderId ≠ order.id then (s.getOrder oldShard.orderId).getD default else order
+  let shard := { shard with orderId := oldShard.orderId, renewInfos := oldShard.renewInfos, createdAt := toU64 s.h,
+                            duration := subU64 (addU64 oldShard.createdAt oldShard.duration) (toU64 s.h) }
+  let s ← softTx' (marketMigrate s inProgress oldShard shard)
+  let s := s.removeShard oldShard.id
+  let s0 := s
+  -- order list: [order] ++ [inProgress if different] ++ the orders of every pending renewal not
+  -- already in the list (the `fix:` of F02)
+  let extraIds := (oldShard.renewInfos.map (·.orderId)).filter (fun id => id ≠ order.id ∧ id ≠ inProgress.id)
+  let strip (o : Order) (first : Bool) : Order :=
+    let ns := o.shards.filter (fun id => id ≠ oldShard.id ∧ (first ∨ id ≠ shard.id))
+    { o with shards := if first then ns else ns ++ [shard.id] }
+  let order' := strip order true
+  let s := s.setOrder order'
+  let (s, inProgress') := if oldShard.orderId ≠ order.id then
+      let ip := strip inProgress false
+      (s.setOrder ip, ip)
+    else (s, order')
+  -- each renewal order is read from the store at the time the list is built (before any SetOrder)
+  let s := extraIds.foldl (fun (s' : State) id =>
+      match s0.getOrder id with
+      | some o => s'.setOrder (strip o false)
+      | none => s') s
+  pure (s, order', shard, inProgress')
+
+/-- completion of a freshly assigned shard: the worker starts earning; the first completion of an order applies it to
+    the data model and moves the payment into the market escrow -/
+def completeFresh (e : Env) (s : State) (order : Order) (shard : Shard) : TxM (State × Order × Shard × Order) := do
+  let shard := { shard with createdAt := toU64 s.h, duration := order.duration }
+  let s := workerAppend s order shard
+  if order.status ≠ OrderCompleted then
+    let s ← softTx (updateMeta e s order)
+    let s ← softTx (marketDeposit e s order)
+    let order := { order with status := OrderCompleted }
+    pure (s, order, shard, order)
+  else pure (s, order, shard, order)
+
+/-- the checks of `Complete`: the order, the shard of it the sender's provider holds, and the data model -/
+def completeGuards (s : State) (msgProvider : Addr) (orderId size : Nat) (cidOk : Bool) : TxM (Order × Shard × Metadata) := do
   if size = 0 then throw "invalid shard size"
   let some order := s.getOrder orderId | throw "order not found"
   let some shard := getOrderShardBySP s order msgProvider | throw "not the order shard provider"
@@ -225,44 +270,12 @@ def saoCompleteBody (e : Env) (s : State) (msgProvider : Addr) (orderId size : N
       if lo.status = OrderPending ∨ lo.status = OrderInProgress ∨ lo.status = OrderDataReady then throw "unexpected last order"
     | none => throw "invalid last order"
   if !cidOk then throw "invalid cid"
-  let (s, order, shard, inProgress) ← (if shard.status = ShardMigrating then do
-      if shard.«from» = 0 then throw "empty shard from"
-      let oldShard? := getOrderShardBySP s order shard.«from»
-      let s ← softTx (shardRelease e s shard.«from» oldShard?)
-      let some oldShard := oldShard? | throw "nil pointer dereference"
-      let inProgress := if oldShard.orderId ≠ order.id then (s.getOrder oldShard.orderId).getD default else order
-      let shard := { shard with orderId := oldShard.orderId, renewInfos := oldShard.renewInfos, createdAt := toU64 s.h,
-                                duration := subU64 (addU64 oldShard.createdAt oldShard.duration) (toU64 s.h) }
-      let s ← softTx' (marketMigrate s inProgress oldShard shard)
-      let s := s.removeShard oldShard.id
-      let s0 := s
-      -- order list: [order] ++ [inProgress if different] ++ the orders of every pending renewal not
-      -- already in the list (the `fix:` of F02)
-      let extraIds := (oldShard.renewInfos.map (·.orderId)).filter (fun id => id ≠ order.id ∧ id ≠ inProgress.id)
-      let strip (o : Order) (first : Bool) : Order :=
-        let ns := o.shards.filter (fun id => id ≠ oldShard.id ∧ (first ∨ id ≠ shard.id))
-        { o with shards := if first then ns else ns ++ [shard.id] }
-      let order' := strip order true
-      let s := s.setOrder order'
-      let (s, inProgress') := if oldShard.orderId ≠ order.id then
-          let ip := strip inProgress false
-          (s.setOrder ip, ip)
-        else (s, order')
-      -- each renewal order is read from the store at the time the list is built (before any SetOrder)
-      let s := extraIds.foldl (fun (s' : State) id =>
-          match s0.getOrder id with
-          | some o => s'.setOrder (strip o false)
-          | none => s') s
-      pure (s, order', shard, inProgress')
-    else do
-      let shard := { shard with createdAt := toU64 s.h, duration := order.duration }
-      let s := workerAppend s order shard
-      if order.status ≠ OrderCompleted then
-        let s ← softTx (updateMeta e s order)
-        let s ← softTx (marketDeposit e s order)
-        let order := { order with status := OrderCompleted }
-        pure (s, order, shard, order)
-      else pure (s, order, shard, order) : TxM (State × Order × Shard × Order))
+  pure (order, shard, md)
+
+/-- the last part of `Complete`: the shard is marked stored, its release is scheduled at the end of its paid period,
+    the model's lifetime is extended to it, the provider's collateral is taken, its reputation raised -/
+def completeTail (e : Env) (s : State) (md : Metadata) (order : Order) (shard : Shard) (inProgress : Order) (msgProvider : Addr)
+    (cid : StrId) : TxM State := do
   let shard := { shard with status := ShardCompleted, cid := cid }
   let endAt := addU64 shard.createdAt shard.duration
   let s := setExpiredShardBlock s shard.id endAt
@@ -272,6 +285,12 @@ def saoCompleteBody (e : Env) (s : State) (msgProvider : Addr) (orderId size : N
   let amt := Int.tdiv order.amount order.replica
   let s := increaseReputation e s msgProvider amt
   pure (s.setOrder order)
+
+def saoCompleteBody (e : Env) (s : State) (msgProvider : Addr) (orderId size : Nat) (cidOk : Bool) (cid : StrId) : TxM State := do
+  let (order, shard, md) ← completeGuards s msgProvider orderId size cidOk
+  let (s, order, shard, inProgress) ← (if shard.status = ShardMigrating then completeMigration e s order shard
+    else completeFresh e s order shard)
+  completeTail e s md order shard inProgress msgProvider cid
 
 /-- who may cancel: the order's creator, or a sender claiming the order's own gateway when the
     order was created by one of that gateway's addresses (the `fix:` of F10) -/
